@@ -45,14 +45,14 @@ func checkC08(c *Ctx) {
 		}
 		if fn := p.Func(pk, "Vector", "ReadFrom"); fn != nil {
 			RequireFacts(c, p, "C08.guard", fn, AcceptNilErr, nil, []Req{
-				{"LengthPrefixRead", `^noerr io\.ReadFull\(p0,.*\[:4\]\)`},
+				{"LengthPrefixRead", `^noerr io\.ReadFull\(p0,(.*\[:4\]|local:\[4\]byte)\)`},
 				{"ElementRead", `^noerr io\.ReadFull\(p0,local:\[\d+\]byte(\[:\])?\)$`},
 				{"Canonical(ByteOrder.Element)", `^noerr (bigEndian|littleEndian)\.Element\(`},
 			})
 		}
 		if fn := p.Func(pk, "Vector", "AsyncReadFrom"); fn != nil {
 			RequireFacts(c, p, "C08.guard", fn, AcceptNilErr, nil, []Req{
-				{"LengthPrefixRead", `^noerr io\.ReadFull\(p0,.*\[:4\]\)`},
+				{"LengthPrefixRead", `^noerr io\.ReadFull\(p0,(.*\[:4\]|local:\[4\]byte)\)`},
 			})
 			checkAsyncValidation(c, p, fn)
 		}
